@@ -215,7 +215,7 @@ func TestC15Framing(t *testing.T) {
 		}
 		// frame(c, x): what the multiplexer hands to the transport
 		sender.AskReply = func(req []byte) ([]byte, error) { return []byte("r"), nil }
-		tctx, tcf := context.WithTimeout(ctx, 2*time.Second)
+		tctx, tcf := context.WithTimeout(ctx, ev.Extended(2*time.Second)) // the scripted transport answers at once
 		defer tcf()
 		if useAsk {
 			resp := make([]byte, 8)
@@ -395,7 +395,13 @@ func TestC15Isolation(t *testing.T) {
 				m.payload = []byte{}
 			}
 			msgs = append(msgs, m)
-			tctx, tcf := context.WithTimeout(ctx, 2*time.Second)
+			// an operation on a channel the destination serves has no reason to run into its deadline; the
+			// long limit only keeps a stalled machine from turning into a failed ask
+			limit := 2 * time.Second
+			if m.ch < nOpenDst {
+				limit = ev.Extended(limit)
+			}
+			tctx, tcf := context.WithTimeout(ctx, limit)
 			if m.ask {
 				resp := make([]byte, 32)
 				rn, err := sendChans[m.ch].(stack.AskBidi).Ask(tctx, resp, b.Local(), p2p.IOVec{m.payload})
